@@ -116,7 +116,13 @@ def modulo(left: float | int, right: float | int) -> float | int:
     try:
         if isinstance(left, int) and isinstance(right, int):
             return left % right
-        return float(decimal.Decimal(str(left)) % decimal.Decimal(str(right)))
+        divisor = decimal.Decimal(str(right))
+        remainder = decimal.Decimal(str(left)) % divisor
+        # Decimal's remainder takes the sign of the dividend. Integers (above) take
+        # the sign of the divisor, and -7.0 is the same number as -7.
+        if remainder and (remainder < 0) != (divisor < 0):
+            remainder += divisor
+        return float(remainder)
     except ZeroDivisionError as err:
         raise LiquidTypeError(
             f"can't divide by {right}",
